@@ -207,6 +207,8 @@ typedef struct {
 void hx_parse(int argc, char **argv, hx_args *a);
 bool hx_next_case(const hx_args *a, uint64_t *idx);   // iteration helper
 void hx_case_begin(uint64_t idx);
+/// Abort the process (exit code 87, "HX-WATCHDOG" on stderr) when one case runs longer than this.
+void hx_set_case_watchdog(unsigned seconds);
 void hx_count(const char *name, uint64_t add);
 void hx_max(const char *name, uint64_t v);
 void hx_distinct(uint64_t hash, bool nontrivial);
